@@ -95,6 +95,24 @@ def run(ck):
     probe = ["M", "M", "M", "M", "M", "M!", "T0", "T0", "T0", "M", "M", "M", "T0", "T0", "T0"]
     lines.append("sched " + json.dumps({"dir": "%s/tmp/schedp" % core.BUILD, "disk": {}, "jobs": probe_jobs, "schedule": probe, "step_timeout_ms": 2000}))
     meta.append((probe_jobs, probe))
+    # the same probe with the first diagnostics task advanced to its vfs read: as long as
+    # the task has not finished, the next edit must wait, whatever the task has already done; also for an edit of another document
+    for second in (["change", "a.td", TEXT + "// c\n"], ["open", "b.td", TEXT]):
+        for k in (1,):      # k = 2 would be task:end, where the snapshot has already been released
+            pj = [["open", "a.td", TEXT], second]
+            pr = ["M"] * 4 + ["T0"] * k + ["M", "M!"] + ["T0"] * (3 - k) + ["M", "M", "M", "T0", "T0", "T0"]
+            lines.append("sched " + json.dumps({"dir": "%s/tmp/schedp%d%s" % (core.BUILD, k, second[1][0]), "disk": {}, "jobs": pj, "schedule": pr, "step_timeout_ms": 2000}))
+            meta.append((pj, pr))
+    # and with a request task in the same positions
+    for kind in ("definition", "hover"):
+        # (not at task:end: a request task has released its snapshot when it reaches that point, the diagnostics task has not;
+        # the model does not distinguish the two and the property does not care)
+        for k in range(0, READS[kind] + 1):
+            pj = [["open", "a.td", TEXT], req(1, kind), ["change", "a.td", TEXT + "// c\n"]]
+            # after the open: T0 = diagnostics task (finish it), then spawn the request task, advance it k steps, probe
+            pr = ["M"] * 4 + ["T0"] * 3 + ["M"] + ["T0"] * k + ["M", "M!"] + ["T0"] * (READS[kind] + 2 - k) + ["M", "M", "M", "T0", "T0", "T0"]
+            lines.append("sched " + json.dumps({"dir": "%s/tmp/schedq%d%s" % (core.BUILD, k, kind), "disk": {}, "jobs": pj, "schedule": pr, "step_timeout_ms": 2000}))
+            meta.append((pj, pr))
     res = core.impl(lines, timeout=600, jobs=8, tag="s08")
     nontriv = set()
     ndis = 0
